@@ -49,7 +49,9 @@ PROPS['C15'] = {
     'packages': ['./tree', './hashmap'],
     'functions': ['(*tree.Tree).CopyNode', '(*tree.Tree).CopyEdge',
                   ('(*tree.Tree).removeSingleNodesRecur', {'match': [r'^callsite', r'^inv']}),
-                  '(*tree.Node).ParentEdge', '(*tree.Tree).GraftTreeOnTip'],
+                  '(*tree.Node).ParentEdge', '(*tree.Node).Parent', '(*tree.Tree).GraftTreeOnTip', '(*tree.Tree).InsertIdenticalTip',
+                  ('(*tree.Tree).copyTreeRecur', {'match': [r'^callsite']}), ('(*tree.Tree).Clone', {'match': [r'^callsite', r'^post']}),
+                  ('(*tree.Tree).SubTree', {'match': [r'^callsite', r'^post']}), ('(*tree.Tree).Merge', {'match': [r'^callsite', r'^post', r'^inv']})],
     'trusted_base': TB_COMMON,
     'assumptions': A_COMMON,
     'not_decided': ['clone structure as a whole (copyTreeRecur), graft/merge/insert transformers: not yet under contract'],
